@@ -26,6 +26,7 @@ func alphabet() []hwd.Op {
 	}
 	add(hwd.TF0, false, hwd.KApplyA, hwd.KApplyB, hwd.KReturn, hwd.KWhenReturn, hwd.KCancel)
 	add(hwd.TF0, true, hwd.KApplyA, hwd.KReturn, hwd.KWhenReturn)
+	a = append(a, hwd.Op{B: 0, T: hwd.TF0, K: hwd.KApplyB, Kept: true}) // re-apply through a handle kept across Cancel/Reset
 	add(hwd.TM, false, hwd.KApplyA, hwd.KReturn, hwd.KWhenReturn, hwd.KCancel)
 	add(hwd.TXA, false, hwd.KApplyA, hwd.KReturn, hwd.KWhenReturn, hwd.KCancel)
 	add(hwd.TXA, true, hwd.KReturn)
